@@ -188,7 +188,7 @@ func (w *world) asyncRound(t *rapid.T, round int) {
 	// timeout is a harness failure, never a verdict.
 	if len(heads) > 1 {
 		ok := false
-		for it := 0; it < 40000 && !ok; it++ {
+		for it := 0; it < 200000 && !ok; it++ {
 			ev.Guard(t, w.text, func() { ok = w.pool.Nonce(accts[blkAcct].addr) == w.head.nonce[blkAcct] })
 			if !ok {
 				if it < 100 {
